@@ -76,7 +76,7 @@ class Walker:
             self.walk(n.expr)
             self.e(ev="VarDecl", name=n.name, final=bool(n.is_final), vt=opt(n.var_type), it=opt(n.inferred_type))
         elif isinstance(n, ast.FieldDeclaration):
-            self.e(ev="FieldDecl", name=n.name, t=ser_t(n.field_type), final=bool(n.is_final), override=bool(n.override))
+            self.e(ev="FieldDecl", name=n.name, t=ser_t(n.field_type), final=bool(n.is_final), override=bool(n.override), open=bool(n.can_override))
         elif isinstance(n, ast.FunctionDeclaration):
             own = self.owner()
             self.owners.append("Fun")
@@ -184,7 +184,7 @@ class Walker:
 def class_entry(d):
     return {"kind": {0: "regular", 1: "interface", 2: "abstract"}[d.class_type], "final": bool(d.is_final),
             "tp": ser_tparams(d.type_parameters), "sup": [ser_t(s.class_type) for s in d.superclasses],
-            "fields": [{"n": f.name, "t": ser_t(f.field_type), "final": bool(f.is_final), "override": bool(f.override)} for f in d.fields],
+            "fields": [{"n": f.name, "t": ser_t(f.field_type), "final": bool(f.is_final), "override": bool(f.override), "open": bool(f.can_override)} for f in d.fields],
             "funs": [ser_fun(f) for f in d.functions]}
 
 
